@@ -21,6 +21,7 @@ RULE = (
     "(real=True / finite=True on all or on some symbols), and a block-size sweep (1..8 states, dense rows, rows with more "
     "temporaries than statements). One ui.Model object (and one set of noise / sensor dictionaries) is also compiled four times with different calibration maps and CSE settings; every compiled object is checked against ITS calibration right after compiling and again after all were compiled. "
     " OPS also has one program per further elementary function (asin .. cot, atan2), linear updates with non-dyadic rational coefficients, and three programs whose intermediates overflow (exp(896)) while the value is defined. After its first compile the caller edits its own dictionaries before the compiled model is first used; the model must still be what it was compiled from."
+    " Saturation constructs (sympy Piecewise with comparisons; AST node clip), alone and shared by several outputs, evaluated on both sides of the bounds."
 )
 ASSUMPTIONS = [
     "expressions limited to the grammar (+ - * /, integer powers 2,3,-1,-2, sin cos tan atan tanh exp log sqrt asin acos atanh sinh cosh asinh acot sec csc cot, atan2), depth <= 3",
@@ -46,6 +47,7 @@ def cases(tier, seed):
     defs += space.family_sizes(tier)
     # intermediates that overflow to inf while the value stays defined (1/(1 + exp(896)) = 0)
     defs += space.family_extreme()
+    defs += space.family_piecewise()  # saturation constructs (Piecewise with comparisons)
     for d in defs:
         nsym = len(d["state"]) + len(d["control"])
         p = per if nsym <= 5 else 2
